@@ -182,6 +182,8 @@ def run(ctx):
         else:
             mm = m.get("err") if "err" in m else {"sm": m["ok"]["sm"], "ssc": m["ok"]["ssc"]}
             if mm != got: res.tie_break("dir.scan", case, got, mm)
+    from adapters import strlib
+    strlib.validate(ctx, res, routines=('lower', 'endswith'))
     res.assumptions = ["listdir/isdir semantics are the filesystem's; the real listing order is an input of the model",
                        "names are ASCII plus caseless CJK, so str.lower is within the modelled table"]
     return res
